@@ -44,6 +44,7 @@ type Actor struct {
 	IsRT bool
 
 	Cur      *Call // outstanding (or last) call on Conn
+	Calls    []*Call
 	absorbed map[*Call]bool
 
 	// runtime side
@@ -92,6 +93,7 @@ func (a *Actor) start(tag, method, path string, hdr map[string]string, body []by
 	r.NextStep()
 	a.Cur = a.Conn.Start(a.Who, method, path, hdr, body)
 	a.Cur.Tag = tag
+	a.Calls = append(a.Calls, a.Cur)
 	r.Settle()
 	return a.Cur
 }
